@@ -1469,7 +1469,7 @@ def cli_tie(ctx, objdir, cases):
                     what = "misc/demangler %s prints %r for %r, expected %r" % (mode, g, c["name"], want)
                     break
             if bad is None and mode == "--full" and corpus:
-                cc = [c for c in pick if c["want"] is not None and c["origin"].startswith("corpus:")]   # generated C++ TU only
+                cc = [c for c in pick if c["want"] is not None and c["origin"].startswith("corpus:") and "rustc" not in c["origin"]]   # C++ only: c++filt demangles rustc names as Rust
                 rc2, o2, e2 = sh(["c++filt"], input="".join(js(c["name"]) + "\n" for c in cc), timeout=60)
                 idx = {id(c): g for c, g in zip(pick, got)}
                 for c, f in zip(cc, o2.splitlines()):
